@@ -1,14 +1,52 @@
 """C02 (module-level): see Props/C02.v and DESIGN.md section 5."""
+import json, os, shutil
+from .. import core
 from .modcommon import run_mod
 
 PROOF = "Props/C02.v"
-RUN_FILES = ["Run/ModuleRun.v", "Run/BuilderRun.v", "Run/CodeMapRun.v", "Run/DwarfRun.v"]
+RUN_FILES = ["Run/ModuleRun.v", "Run/BuilderRun.v", "Run/CodeMapRun.v", "Run/DwarfRun.v", "Run/TypeCoreRun.v"]
 CORR_NAME = "parseM / gc / emitM models vs. real parse, gc, emit_wasm on fixtures and generated modules"
 ASSUMPTIONS = [
     "Model/ParseM.v, EmitM.v, GC.v are hand-written executable models of src/module/*.rs and src/passes/*.rs; attribute plumbing (Gen/Attrs.v), operator tables and visited-reference tables (Gen/Ops.v) are regenerated from the source; the models are tied to the code by replaying every (module, configuration) case on them and comparing the emitted section stream (this run)",
     "wasm-encoder's byte encoding of an abstract section and wasmparser's decoding are trusted and used as the differential oracle",
     "validation of the input is wasmparser's and is a premise of the theorems",
+    "Model/TypeCore.v is a hand-written validator for the 98 core operators (standard algorithm); it is tied to wasmparser's verdict on generated valid and type-broken bodies by this run and proved equivalent to the declarative typing of Model/Typing.v",
 ]
+
+
+def validator_run(ctx, thorough, search):
+    """the core validator of Model/TypeCore.v vs. wasmparser's verdict on generated bodies, one third of them with ONE deliberate type error"""
+    out = os.path.join(ctx.work, ("search" if search else "corr") + "_validator")
+    shutil.rmtree(out, ignore_errors=True)
+    rc, o, dt = core.sh([core.vh(), "c01core", out, str(ctx.seed + (91 if search else 0)), str(2500 if thorough else 240), "ext", "sabotage"], timeout=1200)
+    if rc != 0:
+        return [{"error": "generator failed", "out": o[-600:]}], {}
+    idx = json.load(open(os.path.join(out, "index.json")))
+    lines, kinds, nvalid = [], {}, 0
+    for c in idx["cases"]:
+        nvalid += bool(c["valid"])
+        if c["sabotage"]:
+            kinds[c["sabotage"]] = kinds.get(c["sabotage"], 0) + 1
+        env = "{| te_locals := [%s]; te_globals := [(VT_I32, true); (VT_I64, true); (VT_I32, false)]; te_tys := %s; te_results := [%s]; te_has_mem := %s |}" % (
+            "; ".join(c["locals"]), c["tys"], "; ".join(c["results"]), "true" if c["has_mem"] else "false")
+        lines.append("{| tc_env := %s; tc_body := %s; tc_verdict := %s |}" % (env, c["body"], "true" if c["valid"] else "false"))
+    head = "From Coq Require Import List NArith ZArith String. Import ListNotations.\nFrom WV Require Import Gen.Ops Model.Common Model.IR Model.ParseSpec Model.TypeCore Run.TypeCoreRun.\nOpen Scope N_scope.\nDefinition cases : list tcase := [\n"
+    per = 60
+    for k in range(0, len(lines), per):
+        with open(os.path.join(out, "cases_tc_%d.v" % (k // per)), "w") as f:
+            f.write(head + ";\n".join("  " + l for l in lines[k:k + per]) + "\n].\nEval vm_compute in (List.map check_tcase_nf cases).\n")
+    results, errors = core.coq_eval(out, "cases_tc_*.v")
+    dis = [{"file": f, "coq_error": m[-400:]} for f, m in errors.items()]
+    names = {61: "wasmparser accepts, the model validator rejects", 62: "wasmparser rejects, the model validator accepts", 63: "the model validator accepts a body but rejects its normal form"}
+    n = 0
+    for f, codes in results.items():
+        n += len(codes)
+        for i, cd in enumerate(codes):
+            if cd != 0:
+                dis.append({"code": cd, "meaning": names.get(cd, "?"), "file": os.path.basename(f), "case_index": i})
+    cov = {"bodies": len(lines), "valid_per_wasmparser": nvalid, "invalid_per_wasmparser": len(lines) - nvalid, "deliberate_type_errors": kinds, "evaluated_in_coq": n,
+           "rule": "generated bodies over the 98 core operators (blocks, loops, ifs, branches with surplus values, br_table, dead code that takes operands from the polymorphic stack, memory operators); about a third carry ONE deliberate type error (wrong operand type, missing operand, value of the wrong type at a branch, else-less if with a result, local index out of range, global.set of an immutable global, over-aligned load); wasmparser's verdict on the module vs. check_body; for accepted bodies also check_body of the normal form"}
+    return dis, cov
 
 
 def correspondence(ctx, thorough, search):
@@ -30,5 +68,9 @@ def correspondence(ctx, thorough, search):
     cov["traces_validated_against_impl"] = sum(p.get("traces_validated_against_impl", 0) for p in parts.values())
     cov["input_distribution"] = {k: p.get("input_distribution") for k, p in parts.items()}
     cov["rule"] = " || ".join("%s: %s" % (k, p.get("rule", "")) for k, p in parts.items())
+    d2, c2 = validator_run(ctx, thorough, search)
+    r["disagreements"] += [dict(d, harness="validator") for d in d2]
+    cov["core_validator_vs_wasmparser"] = c2
+    cov["traces_validated_against_impl"] += c2.get("evaluated_in_coq", 0)
     r["coverage"] = cov
     return r
